@@ -37,6 +37,7 @@ pub fn gen_min_case(rng: &mut Rng, tier: &str, prop: &str, degenerate: bool) -> 
         min_len: 0,
         dup_pct: 10,
             tab_desc_pct: 0,
+            utf8_id_pct: 15,
             dup_id_pct: 3,
     };
     let records = g.gen(rng);
